@@ -10,7 +10,7 @@ SPEC = {
     "streams": [
         {"kind": "DOC", "type": "(N * str * outcome (list pdef))", "eval": "check_doc", "per_shard": 40},
         {"kind": "TNEW", "type": "(str * option ptype)", "eval": "check_tnew", "per_shard": 400},
-        {"kind": "SDL", "type": "(str * outcome (list (N * str)))", "eval": "check_sdl", "per_shard": 40},
+        {"kind": "SDL", "type": "(str * outcome (list (N * str * option str)))", "eval": "check_sdl", "per_shard": 40},
     ],
     "classes": {1: "block-string-escaped-triple-quote-kept", 2: "block-string-short-blank-line-kept",
                 3: "type-inner-ignored-rejected", 4: "token-boundary-missing", 5: "float-out-of-range-rejected"},
